@@ -259,8 +259,9 @@ def case_select(case):
                                 if str(exists).startswith("src-"):
                                     counters["refusals_with_odd_sources"] = counters.get("refusals_with_odd_sources", 0) + 1
                                     if pulled:
-                                        viols.append(_v("select-after-data", f"{op}({name!r}, fmt={fmt!r}): {len(pulled)} frame(s) pulled from the "
-                                                        f"iterable although no format can be selected ({res[:2]})"))
+                                        # observation only: frames pulled from an in-memory generator before the refusal touch no file
+                                        # system and leave the outcome to the verdicts below (FileFormatError, no file-system event)
+                                        counters["observed_frames_pulled_before_refusal"] = counters.get("observed_frames_pulled_before_refusal", 0) + len(pulled)
                                 counters["selections"] += 1
                                 counters["audit_events_total"] += len(w.events)
                                 observed.append(res[:2])
